@@ -87,6 +87,10 @@ def rand_attrs(rng):
         at["tag"] = rng.choice(["x", "y", "1", ""])
     if rng.random() < 0.3:
         at["flag"] = rng.choice([True, False, None, 1, 0])
+    if rng.random() < 0.15:
+        # user attributes that happen to be called like read-only node properties (they live in the instance dict and
+        # are never queried by the cases; the real `depth` / `max_depth` of the node must not be confused with them)
+        at[rng.choice(["depth", "max_depth", "is_leaf"])] = rng.choice([0, 1, 2, 7])
     return at
 
 
@@ -374,7 +378,7 @@ def _gen_histories(rng, quick):
         if any(len({c[0] for c in s[2]}) != len(s[2]) for _a, s in core.spec_nodes(init)):
             continue      # fan-out larger than the alphabet gave a clash; not a valid Node tree
         build = rng.choice(["nodes", "nodes", "list", "addpath"])
-        kinds = ("rename", "swapnames", "move", "reattach", "reorder", "failmove")
+        kinds = ("rename", "swapnames", "move", "reattach", "reorder", "failmove", "delre")
         if build == "nodes":     # objects of a user subclass: assignments rolled back because a (reading) hook raises
             kinds += ("hookmove", "hookkids")
         edits = H.random_edits(rng, init, rng.randint(1, 6), alphabet + ["c"], kinds=kinds)
@@ -546,13 +550,15 @@ def _build_hist(d):
         for n, (_a, s) in zip(objs, core.spec_nodes(init)):
             n.set_attrs(dict(s[1]))
         _fspec, final_order = H.final(init, h["edits"])
-    root.sep = h.get("sep0", "/")
+    if h.get("sep0", "/") != "/":
+        root.sep = h["sep0"]
     _warmup(objs)
     for e, w in zip(h["edits"], h["warm"]):
         H.apply_real(objs, e)
         if w:
             _warmup(objs, light=w)
-    root.sep = d["sep"]
+    if root.sep != d["sep"]:      # (an unconditional assignment would give a caching implementation a chance to flush)
+        root.sep = d["sep"]
     return root, [objs[i] for i in final_order]
 
 
